@@ -3,9 +3,9 @@ LEVEL = "model_checking"
 TECHNIQUE = "CBMC bounded symbolic execution of http.c response parsing leafs vs RFC 9112 reference recognisers (compositional)"
 UNITS = ["http.c", "http-internal.h", "evutil.c"]
 FUNCTIONS = ["evhttp_parse_firstline_", "evhttp_parse_response_line", "evhttp_parse_http_version", "evhttp_valid_response_code",
-             "evhttp_response_needs_body", "evhttp_get_body", "evhttp_get_body_length", "evhttp_find_header"]
+             "evhttp_response_needs_body", "evhttp_get_body", "evhttp_get_body_length", "evhttp_find_header", "evhttp_error_cb", "evhttp_connection_done", "evhttp_connection_fail_"]
 BOUNDS = 'status line <=16 symbolic bytes (thorough 20, NUL included); response framing: 8 (thorough 15) enumerated shapes of <=2 (3) header fields with symbolic values <=8 (10) bytes, status code in {200,204,304,404,407,101,299,500}, request method in {GET,HEAD,CONNECT,POST}; segmentation of the status line: C23 obligation segment_firstline (response kind)'
-OUT = 'connection reuse and leftover bytes across responses (unit step only; body byte accounting is C25 body_cl: bytes behind the body stay in the input buffer); 100-continue restart; peer close at any byte (evhttp_error_cb, C27); header section parsing is shared with the server side (C23 headers)'
+OUT = 'connection reuse and leftover bytes across responses (unit step only; body byte accounting is C25 body_cl: bytes behind the body stay in the input buffer); 100-continue restart; peer close at any byte of a whole exchange (unit step only: obligation eof_in_body); header section parsing is shared with the server side (C23 headers)'
 TEXT = 'Client-side leafs of http.c on symbolic input against RFC 9112 reference recognisers: status line (version, 3DIGIT code, reason phrase) through evhttp_parse_firstline_/evhttp_parse_response_line; body framing decision through the real evhttp_read_header -> evhttp_response_needs_body -> evhttp_get_body (HEAD/1xx/204/304/2xx-CONNECT without body, Transfer-Encoding, Content-Length, close-delimited).'
 NOTE = 'Trusted as for C23. One open known finding (KF-C24-keepalive-no-length: no length + Connection not close => body taken as empty, deliberate heuristic). 3 defects with fix proposals (fixes/C24-*.diff).'
 ASSUMPTIONS = ['evbuffer_readln contract model env/http_lines.h', 'field values arrive OWS-trimmed, free of CR/LF/NUL (C23 obligation headers)', 'continuations of evhttp_read_header/evhttp_get_body are recorders (evhttp_connection_done, evhttp_connection_fail_, evhttp_read_body, evhttp_start_write_, ...)']
@@ -50,4 +50,14 @@ def _obligations(tier):
                 defines=["VP_V=8", "VP_K0=5", "VP_K1=0", "VP_K2=0", "KF_ONLY_KEEPALIVE_NOLEN"], unwind=20, instrument=CUT, timeout=600, mem_gb=6, native=False,
                 expect_fail=["response taken as complete without body", "body length is not the"], known_finding="KF-C24-keepalive-no-length",
                 desc="known finding: no length, Connection not close -> body taken as empty"))
+    # peer close while a response body is being read: only a close-delimited body may complete, a chunked or
+    # Content-Length body cut short must fail (same unit step as C27 step_error_cb, harness C27_lifecycle.c)
+    import importlib.util, os
+    sp = importlib.util.spec_from_file_location("prop_C27_for_C24", os.path.join(os.path.dirname(os.path.abspath(__file__)), "C27.py"))
+    m27 = importlib.util.module_from_spec(sp); sp.loader.exec_module(m27)
+    for o in m27.obligations(tier):
+        if o["name"] == "step_error_cb":
+            o = dict(o); o["name"] = "eof_in_body"
+            o["desc"] = "evhttp_error_cb with symbolic event mask in every state: EOF completes a response only when its body is close-delimited (not chunked, no Content-Length pending)"
+            obs.append(o)
     return obs
